@@ -378,6 +378,45 @@ def lifecycle_history(world, rnd, nops, disorder=0.0, reconf_cfgs=None, sync=Tru
 
 
 
+def memfill_history(world, rnd, nops):
+    """Memory pressure: small CPU requests, memory limits of the order of a NUMA node, so that zones overflow, widen and push
+    existing containers' zones (their cpuset.mems must follow); some containers opted out of memory pinning; then drain."""
+    ops, ctrs, pod_of = [], {}, {}
+    n = 0
+    while len(ops) < nops:
+        if ctrs and rnd.random() < 0.25:
+            c = rnd.choice(sorted(ctrs))
+            ops.append({"op": "Stop", "pod": pod_of[c], "c": c})
+            ops.append({"op": "Remove", "pod": pod_of[c], "c": c})
+            del ctrs[c]
+            continue
+        if ctrs and rnd.random() < 0.1:
+            c = rnd.choice(sorted(ctrs))
+            mem = rnd.choice([256, 1024, 2048, 3000])
+            ops.append({"op": "Update", "pod": pod_of[c], "c": c, "ctr": {"cpureq": 200, "cpulim": 200, "memlim": mem, "memreq": mem}})
+            continue
+        n += 1
+        p, c = "p%d" % n, "c%d" % n
+        qos = rnd.choice(["Guaranteed", "Guaranteed", "Burstable"])
+        ann = {}
+        if rnd.random() < 0.12:
+            ann[ANN["pmem"]] = "true"
+        if rnd.random() < 0.2:
+            ann[ANN["memtype"]] = rnd.choice(["dram", "dram,pmem", "pmem", "hbm,dram"])
+        mem = rnd.choice([512, 1024, 1500, 2048, 2500, 3000, 3500])
+        cpu = rnd.choice([100, 200, 300, 500])
+        spec = {"cpureq": cpu, "cpulim": cpu if qos == "Guaranteed" else 0, "memlim": mem, "memreq": mem if qos == "Guaranteed" else 64}
+        if rnd.random() < 0.2:
+            spec["mems0"] = "0"
+        ops.append({"op": "RunPod", "pod": p, "pods": {"ns": "default", "qos": qos, "ann": ann}})
+        ops.append({"op": "Create", "pod": p, "c": c, "ctr": spec})
+        ctrs[c], pod_of[c] = "created", p
+    for c in list(ctrs):
+        ops.append({"op": "Stop", "pod": pod_of[c], "c": c, "tag": "drain"})
+        ops.append({"op": "Remove", "pod": pod_of[c], "c": c, "tag": "drain"})
+    return {"world": world, "ops": ops, "consistent": True}
+
+
 def fill_history(world, rnd, nops, reconf=0.0, topup=False):
     """Fill the machine to capacity and keep it there: many fractional and mixed (exclusive + fraction) requests,
     occasional departures, so that admission decisions are made at nearly full pools."""
